@@ -1,6 +1,6 @@
 """C09 -- B-spline fit is the weighted least-squares optimum; failure is a status code."""
 
-from .bsplinelib import check_int_sinks, check_ict, check_proto, check_status, check_clip, check_chol_nomut
+from .bsplinelib import check_int_sinks, check_ict, check_proto, check_status, check_clip, check_chol_nomut, check_coeff_agree
 
 META = {
     'property': 'C09',
@@ -15,9 +15,9 @@ META = {
         'value flows into maskpoints, which normalises an int before subscripting; C09.SHAPE-JOIN - every definition of the block '
         'stored into L[:, 0:n] is the factor of l[:, 0:n]; C09.STATUS - fit returns (-2, zeros) before touching data when too few '
         'breakpoints are good, every return is (status, yfit), maskpoints returns only -1/-2; C09.CLIP - indices stored through in '
-        'maskpoints are clamped inside the array; C09.NOMUT - cholesky_band / cholesky_solve do not overwrite the caller\'s matrix. '
+        'maskpoints are clamped inside the array; C09.COEFF-AGREE - fit and value select coefficient slots through the same mask expression; C09.NOMUT - cholesky_band / cholesky_solve do not overwrite the caller\'s matrix. '
         'NOT decided: optimality, agreement with a dense solver, polynomial reproduction, linearity in y, L*L^T = A (numerical).'),
-    'floors': {'C09.INT-SINK': 10, 'C09.ROWS': 4, 'C09.PROTO': 6, 'C09.SHAPE-JOIN': 1, 'C09.STATUS': 5, 'C09.CLIP': 1, 'C09.NOMUT': 2},
+    'floors': {'C09.INT-SINK': 10, 'C09.ROWS': 4, 'C09.PROTO': 6, 'C09.SHAPE-JOIN': 1, 'C09.STATUS': 5, 'C09.CLIP': 1, 'C09.NOMUT': 2, 'C09.COEFF-AGREE': 1},
 }
 
 
@@ -28,3 +28,4 @@ def run(ctx):
     check_status(ctx, ctx.repo, 'C09.STATUS')
     check_clip(ctx, ctx.repo, 'C09.CLIP')
     check_chol_nomut(ctx, ctx.repo, 'C09.NOMUT')
+    check_coeff_agree(ctx, ctx.repo, 'C09.COEFF-AGREE')
